@@ -18,6 +18,8 @@ func init() { register("C03", c03) }
 // Extensions by UnmarshalJSON; the provenance of each stored value; the omit condition; json=yaml tags.
 func c03(r *core.Report) {
 	p := r.Prog
+	c03MethodSet(r)
+	c03NullPresence(r)
 	r.Assumption("values survive encoding/json, the YAML reader/writer and custom scalar codecs (Types, AdditionalProperties): not decided")
 
 	type tyinfo struct {
@@ -703,6 +705,125 @@ func abstractElemNames(s string, n *types.Named) string {
 }
 
 // c03Embed: a type embedding another model type must delegate its codecs to the embedded type.
+// c03MethodSet: a custom codec is found by the encoders only when it is in the method set of the
+// value they are handed. A model type whose MarshalYAML / MarshalJSON has a pointer receiver and
+// which is stored or returned BY VALUE is written by the encoders' struct fallback instead -- without
+// its Extensions (tagged "-") and with the zero-valued fields the codec leaves out.
+func c03MethodSet(r *core.Report) {
+	p := r.Prog
+	r.RunRule("C03.methodset", "the custom marshallers are reachable wherever a model value is written: for every model struct of openapi3/openapi2 that declares MarshalYAML or MarshalJSON, each place that hands a value of the type to an encoder by value (a field, map element or slice element of another model struct of that type itself rather than a pointer to it; the operand a MarshalYAML returns) has the method in the value's method set, i.e. the method has a value receiver", 40, func() {
+		type occ struct {
+			pos  string
+			what string
+		}
+		// by-value hand-over sites per codec
+		byValue := map[string]map[*types.Named][]occ{"MarshalYAML": {}, "MarshalJSON": {}}
+		var elemOf func(t types.Type) *types.Named
+		elemOf = func(t types.Type) *types.Named {
+			switch x := t.(type) {
+			case *types.Named:
+				if core.InRepo(x.Obj().Pkg()) && core.StructOf(x) != nil {
+					return x
+				}
+				switch u := x.Underlying().(type) {
+				case *types.Map:
+					return elemOf(u.Elem())
+				case *types.Slice:
+					return elemOf(u.Elem())
+				}
+			case *types.Map:
+				return elemOf(x.Elem())
+			case *types.Slice:
+				return elemOf(x.Elem())
+			case *types.Alias:
+				return elemOf(types.Unalias(x))
+			}
+			return nil
+		}
+		add := func(codecs []string, en *types.Named, o occ) {
+			for _, c := range codecs {
+				byValue[c][en] = append(byValue[c][en], o)
+			}
+		}
+		both := []string{"MarshalYAML", "MarshalJSON"}
+		for _, rel := range []string{"openapi3", "openapi2"} {
+			for _, n := range p.ModelTypes(rel, "T") {
+				if core.HasMethod(n, "MarshalYAML") != nil || core.HasMethod(n, "MarshalJSON") != nil {
+					continue // what is written is what its marshaller hands over: below
+				}
+				st := n.Underlying().(*types.Struct)
+				for i := 0; i < st.NumFields(); i++ {
+					f := st.Field(i)
+					if !f.Exported() {
+						continue
+					}
+					if en := elemOf(f.Type()); en != nil {
+						add(both, en, occ{p.Pos(f.Pos()), "field " + n.Obj().Name() + "." + f.Name() + " of a struct written by its tags"})
+					}
+				}
+			}
+			// what a marshaller stores into the map it builds, or returns, is marshalled in its place:
+			// by the YAML writer for MarshalYAML, and by encoding/json for both (MarshalJSON encodes
+			// what MarshalYAML built)
+			for _, d := range p.AllDecls(rel) {
+				if d.Body == nil || d.Recv == nil || (d.Name.Name != "MarshalYAML" && d.Name.Name != "MarshalJSON") {
+					continue
+				}
+				codecs := both
+				if d.Name.Name == "MarshalJSON" {
+					codecs = []string{"MarshalJSON"}
+				}
+				info := p.Pkg(rel).TypesInfo
+				ast.Inspect(d.Body, func(nn ast.Node) bool {
+					switch x := nn.(type) {
+					case *ast.FuncLit:
+						return false
+					case *ast.ReturnStmt:
+						if len(x.Results) > 0 && d.Name.Name == "MarshalYAML" {
+							if en := elemOf(info.TypeOf(x.Results[0])); en != nil {
+								add(codecs, en, occ{p.Pos(x.Pos()), "returned by " + core.FuncName(d)})
+							}
+						}
+					case *ast.AssignStmt:
+						if len(x.Lhs) == 1 && len(x.Rhs) == 1 {
+							if ix, ok := ast.Unparen(x.Lhs[0]).(*ast.IndexExpr); ok {
+								if _, isMap := info.TypeOf(ix.X).Underlying().(*types.Map); isMap {
+									if en := elemOf(info.TypeOf(x.Rhs[0])); en != nil {
+										add(codecs, en, occ{p.Pos(x.Pos()), "stored by " + core.FuncName(d)})
+									}
+								}
+							}
+						}
+					}
+					return true
+				})
+			}
+		}
+		for _, rel := range []string{"openapi3", "openapi2"} {
+			for _, n := range p.ModelTypes(rel, "T") {
+				for _, m := range []string{"MarshalYAML", "MarshalJSON"} {
+					fn := core.HasMethod(n, m)
+					if fn == nil {
+						continue
+					}
+					sig := fn.Type().(*types.Signature)
+					_, ptrRecv := sig.Recv().Type().(*types.Pointer)
+					occs := byValue[m][n]
+					key := fmt.Sprintf("methodset:%s.%s.%s", rel, n.Obj().Name(), m)
+					switch {
+					case !ptrRecv:
+						r.OK(key, p.Pos(fn.Pos()), fmt.Sprintf("value receiver: found for a value and for a pointer (%d by-value uses)", len(occs)))
+					case len(occs) == 0:
+						r.OK(key, p.Pos(fn.Pos()), "pointer receiver, and the type is only ever held by pointer")
+					default:
+						r.Bad(key, p.Pos(fn.Pos()), fmt.Sprintf("%s.%s has a pointer receiver but a %s is handed to the encoders by value (%s at %s): for that value the encoder does not find the method and writes the struct by its tags, without Extensions", n.Obj().Name(), m, n.Obj().Name(), occs[0].what, occs[0].pos))
+					}
+				}
+			}
+		}
+	})
+}
+
 func c03Embed(r *core.Report) {
 	p := r.Prog
 	r.RunRule("C03.embed", "a model struct that embeds another model struct delegates MarshalJSON/MarshalYAML/UnmarshalJSON to the embedded type", 3, func() {
@@ -927,6 +1048,85 @@ func c03Collect(r *core.Report) {
 					r.OK(key, p.Pos(decode.Pos()), "unconditional")
 				}
 			}
+		}
+	})
+}
+
+// c03NullPresence: JSON null decodes into any non-pointer target without an error and without
+// touching it. A decoder that records "the key was given" by taking the address of such a target
+// records it for null as well, with the zero value: `additionalProperties: null` becomes
+// `additionalProperties: false`.
+func c03NullPresence(r *core.Report) {
+	p := r.Prog
+	r.RunRule("C03.nullpresence", "null is not taken for a value: in each UnmarshalJSON of packages openapi3 and openapi2, a local variable that json.Unmarshal fills directly from the raw bytes never has its address stored into a pointer field of the receiver (a presence marker) — null would leave the variable at its zero value and mark it present; presence pointers are set from a type switch over the decoded `any`, where null is its own case", 40, func() {
+		n := 0
+		for _, rel := range []string{"openapi3", "openapi2"} {
+			pkg := p.PkgOpt(rel)
+			if pkg == nil {
+				continue
+			}
+			info := pkg.TypesInfo
+			for _, d := range p.AllDecls(rel) {
+				if d.Recv == nil || d.Body == nil || d.Name.Name != "UnmarshalJSON" || len(d.Type.Params.List) != 1 || len(d.Type.Params.List[0].Names) != 1 {
+					continue
+				}
+				n++
+				data := info.ObjectOf(d.Type.Params.List[0].Names[0])
+				recv := recvObj(info, d)
+				// locals filled straight from the raw bytes
+				filled := map[types.Object]bool{}
+				ast.Inspect(d.Body, func(nn ast.Node) bool {
+					c, ok := nn.(*ast.CallExpr)
+					if !ok || len(c.Args) != 2 {
+						return true
+					}
+					f := core.CalleeOf(info, c)
+					if f == nil || f.Name() != "Unmarshal" {
+						return true
+					}
+					if id, ok := ast.Unparen(c.Args[0]).(*ast.Ident); !ok || info.ObjectOf(id) != data {
+						return true
+					}
+					if u, ok := ast.Unparen(c.Args[1]).(*ast.UnaryExpr); ok && u.Op == token.AND {
+						if id, ok := ast.Unparen(u.X).(*ast.Ident); ok {
+							t := info.TypeOf(id).Underlying()
+							if _, isIface := t.(*types.Interface); !isIface {
+								if _, isPtr := t.(*types.Pointer); !isPtr {
+									filled[info.ObjectOf(id)] = true
+								}
+							}
+						}
+					}
+					return true
+				})
+				key := "nullpresence:" + core.FuncName(d)
+				bad := ""
+				ast.Inspect(d.Body, func(nn ast.Node) bool {
+					as, ok := nn.(*ast.AssignStmt)
+					if !ok {
+						return true
+					}
+					for i, l := range as.Lhs {
+						if i >= len(as.Rhs) {
+							break
+						}
+						sel, ok := ast.Unparen(l).(*ast.SelectorExpr)
+						if !ok || core.RootIdent(sel) == nil || info.ObjectOf(core.RootIdent(sel)) != recv {
+							continue
+						}
+						if u, ok := ast.Unparen(as.Rhs[i]).(*ast.UnaryExpr); ok && u.Op == token.AND {
+							if id, ok := ast.Unparen(u.X).(*ast.Ident); ok && filled[info.ObjectOf(id)] {
+								bad = fmt.Sprintf("%s = &%s at %s", core.ExprStr(l), id.Name, p.Pos(as.Pos()))
+							}
+						}
+					}
+					return true
+				})
+				r.Check(bad == "", key, p.Pos(d.Pos()), "no presence marker taken from a directly decoded local", core.FuncName(d)+" marks a field present with the address of a variable that json.Unmarshal filled from the raw bytes ("+bad+"): for JSON null the decode succeeds without touching the variable, so null is recorded as the zero value (an explicit `false`, `0` or empty object the input did not have)")
+			}
+		}
+		if n == 0 {
+			core.Fail("no UnmarshalJSON found")
 		}
 	})
 }
